@@ -1,4 +1,5 @@
 import MetapypeModel.Model.Validate
+import MetapypeModel.Gen.Facts
 /-
   C05 — whole-tree validation is the conjunction of node validations; metadata is opaque.
   For every lexer, every table and every tree (induction on trees; no bound on size or depth).
@@ -68,6 +69,36 @@ theorem collectNode_metadata_kids (L : Lexer) (T : Tables) (c : Option String) (
     cases o with
     | none => rfl
     | some r => simp only [validateRule, validateChildrenRaw, if_true, h]
+
+/-- without mixed content the content checks do not look at the children -/
+theorem validateContent_nKids' (L : Lexer) (r : Rule) (n1 n2 : Nat) (c : Option String) :
+    validateContent L r false n1 c = validateContent L r false n2 c := by
+  unfold validateContent
+  congr 1
+
+/-- "… beyond it having at most one child": under the shipped tables a `metadata` element with no child and one with a single
+    child (of any name) are judged the same — only a second child makes a difference -/
+theorem C05_metadata_at_most_one (L : Lexer) (c : Option String) (a : Dict) (ks ks' : List String)
+    (h : ks.length ≤ 1) (h' : ks'.length ≤ 1) :
+    collectNode L Gen.tables "metadata" c a ks = collectNode L Gen.tables "metadata" c a ks' := by
+  have hb : (match Gen.tables.ruleOf "metadata" with
+             | some (some r') => !(isMixed Gen.tables.mixedRules r')
+             | _ => true) = true := by decide +kernel
+  have hm : ∀ r, Gen.tables.ruleOf "metadata" = some (some r) → isMixed Gen.tables.mixedRules r = false := by
+    intro r hr
+    rw [hr] at hb
+    simpa using hb
+  simp only [collectNode]
+  cases hr : Gen.tables.ruleOf "metadata" with
+  | none => rfl
+  | some o =>
+    cases o with
+    | none => rfl
+    | some r =>
+      have h1 : ¬ 1 < ks.length := by omega
+      have h2 : ¬ 1 < ks'.length := by omega
+      simp only [validateRule, hm r hr, validateChildrenRaw, if_true, h1, h2, if_false,
+        validateContent_nKids' L r ks.length ks'.length c]
 
 def stub : Tree := .mk "" "" none none none [] [] [] []
 
